@@ -47,6 +47,15 @@ func VerifC01_Sources() {
 	verifrt.Assert((errB == nil) == bGood, "a configured URL is taken in iff its CRL is acceptable")
 	errC := c.addCrlFilesFromConfig(chains)
 	verifrt.Assert(errC == nil, "configured file taken in")
+	// optionally: a later refresh of the configured file delivers a list with a bad signature. It is rejected
+	// (verify mode), so the previously accepted list stays in force - and must still be consulted.
+	if verifrt.Choose(2) == 1 {
+		bad := crlrepository.VerifNewCRL("C-bad", "CN=I1", other)
+		bad.SetSigOK(false)
+		crlrepository.VerifSetServer(fileC, true, bad)
+		c.crlRepository.UpdateCRLs()
+		verifrt.Reach("refresh-rejected")
+	}
 	// the presented certificate: CDP nowhere / at A / at an unreachable location
 	var cdp []string
 	switch verifrt.Choose(3) {
